@@ -37,6 +37,24 @@ fn main() {
             Err(e) => found.push(format!("secant on (x^2+y-3, x+y^2-5) from {start:?}: Err({e})")),
         }
     }
+    // secant on regular systems with NON-symmetric Jacobians (rotation / cyclic-permutation dominated, condition number about 1)
+    {
+        let a2 = SMatrix::<f64, 2, 2>::new(0.0, -2.0, 2.0, 0.0);
+        let r2 = SVector::<f64, 2>::new(1.0, -2.0);
+        let f2 = |x: &[f64]| { let d = SVector::<f64, 2>::from_column_slice(x) - r2; a2 * d + d.map(|v| v * v.sin()) };
+        for (start, tol) in [([1.3, -2.2], 1e-10), ([1.3, -2.2], 1e-6), ([0.8, -1.9], 1e-8)] {
+            match secant::<f64, _, 2>(&start, f2, 0.01, tol, 200) {
+                Ok(x) => if (x - r2).norm() > 1e-5 { found.push(format!("secant on the skew 2-d system from {start:?} returned {:?}", x.as_slice())); },
+                Err(e) => found.push(format!("secant on the skew 2-d system (cond about 1, start 0.36 from the root) from {start:?}, tol {tol:e}: Err({e})")),
+            }
+        }
+        let a3 = SMatrix::<f64, 3, 3>::new(0.1, 2.0, 0.05, 0.0, 0.1, 2.0, 2.0, 0.05, 0.1);
+        let f3 = |x: &[f64]| { let d = SVector::<f64, 3>::from_column_slice(x); a3 * d + d.map(|v| 0.5 * v * v.sin()) };
+        match secant::<f64, _, 3>(&[0.2, -0.15, 0.1], f3, 0.01, 1e-9, 300) {
+            Ok(x) => if x.norm() > 1e-5 { found.push(format!("secant on the cyclic 3-d system returned {:?}", x.as_slice())); },
+            Err(e) => found.push(format!("secant on the cyclic 3-d system (root at the origin, start 0.27 away): Err({e})")),
+        }
+    }
     // Steffensen on a contraction with tolerance near machine precision
     fn g(x: f64) -> f64 { 0.5 * x.cos() }
     for tol in [1e-6, 1e-10, 1e-13] {
